@@ -444,14 +444,45 @@ type pipeT struct {
 	ca     *cache.Cache
 	st     *stubT
 	ledger map[int]*ansRec
+	// wireUsed: the last request entered as a wire-born one
+	wireUsed bool
 }
 
+// run sends one client request through edns -> cache -> upstream stub.  A
+// proto of "wudp"/"wtcp" enters the way the server's packet path does: as a
+// wire-born request (ParseWire + ResetWire), provided the packet decodes back
+// to exactly the options of the op line and the strict parser admits it;
+// otherwise (and for every other proto) as a decoded message.
 func (p *pipeT) run(c clientT, proto string, req *dns.Msg) *dns.Msg {
-	w := mock.NewWriter(proto, c.hostport())
+	wire := strings.HasPrefix(proto, "w")
+	w := mock.NewWriter(strings.TrimPrefix(proto, "w"), c.hostport())
 	ch := middleware.NewChain([]middleware.Handler{p.ed, p.ca, p.st})
-	ch.Reset(w, req)
+	p.wireUsed = false
+	if wire {
+		if raw, err := req.Pack(); err == nil {
+			back := new(dns.Msg)
+			if back.Unpack(raw) == nil && optsOf(back) == optsOf(req) {
+				r := new(middleware.Request)
+				if r.ParseWire(raw, time.Now(), nil) {
+					ch.ResetWire(w, r)
+					p.wireUsed = true
+				}
+			}
+		}
+	}
+	if !p.wireUsed {
+		ch.Reset(w, req)
+	}
 	ch.Next(context.Background())
 	return w.Msg()
+}
+
+func optsOf(m *dns.Msg) string {
+	o := m.IsEdns0()
+	if o == nil {
+		return "noopt"
+	}
+	return renderOpts(o.Option, true)
 }
 
 func pipeNew(f []string) vlib.Res {
@@ -566,6 +597,9 @@ func pipeQ(f []string) vlib.Res {
 	o := "ok"
 	if len(or) > 0 {
 		o = or[0]
+	}
+	if p.wireUsed {
+		tags = strings.TrimPrefix(tags+",wire-born", ",")
 	}
 	return vlib.Res{Impl: impl, Oracle: o, Tags: tags}
 }
